@@ -2207,12 +2207,14 @@ class Transaction(object):
             if not remaining_fee:
                 break
             if outp.value > remaining_fee * 2:
-                outp.value -= extra_fee
+                outp.value -= remaining_fee
                 remaining_fee = 0
             elif outp.value < remaining_fee:
                 remaining_fee -= outp.value
                 outputs_to_delete.append(outp)
             else:
+                # Change output is removed completely, the rest of its value is added to the fee
+                fee += outp.value - remaining_fee
                 outputs_to_delete.append(outp)
                 remaining_fee = 0
 
